@@ -21,7 +21,7 @@ MANIFEST = dict(
     category='model_checking', design_ref='DESIGN.md §3 C16, §2.8',
     engine='E4-choice',
     technique='stateless deviation-bounded DFS over set-iteration-order choices inside the real wn code (AST-instrumented import) per battery item, bound to reality by byte-comparison of uninstrumented runs under different PYTHONHASHSEED values',
-    text='A battery of about 175 items (every public query/navigation method on three generated databases rich in order-sensitive structure - several lowest common hypernyms at different distances, equally short paths, entry-level frames shared between senses, many non-reciprocated relations onto one target, extensions, two versions with identical ids - plus taxonomy, similarity, wn.ic.compute, res/jcn/lin, Morphy, validate, lmf.dump, wn.export in 1.0 and 1.3, scan/load) is executed under a scheduler that owns the iteration order of every set/frozenset whose element hashes depend on the hash seed: all m! orders for m <= 4, otherwise sorted/reversed/each-element-first; all schedules with at most 1 (thorough: 2) non-default choices are explored per item and every one must produce byte-identical canonical transcripts, in which list order and mapping order are kept. Each item is also run twice in one process; for ordered pairs (Y, X) of items, with Y ranging over the taxonomy/similarity/IC/Morphy/validate/export items (all of them in the thorough tier, a rotating sixth in the quick tier) and X over the whole battery, X is re-run after Y and must return what it returned in a fresh process (read-only calls do not change later results); and the whole battery is run uninstrumented in separate processes with PYTHONHASHSEED 0..K-1 (K=4 quick, 24 thorough) whose transcripts must be identical to each other.',
+    text='A battery of about 175 items (every public query/navigation method on three generated databases rich in order-sensitive structure - several lowest common hypernyms at different distances, equally short paths, entry-level frames shared between senses, many non-reciprocated relations onto one target, extensions, two versions with identical ids - plus taxonomy, similarity, wn.ic.compute, res/jcn/lin, Morphy, validate, lmf.dump, wn.export in 1.0 and 1.3, scan/load) is executed under a scheduler that owns the iteration order of every set/frozenset whose element hashes depend on the hash seed: all m! orders for m <= 4, otherwise sorted/reversed/each-element-first; all schedules with at most 1 (thorough: 2) non-default choices are explored per item and every one must produce byte-identical canonical transcripts, in which list order and mapping order are kept. Each item is also run twice in one process; for ordered pairs (Y, X) of items, with Y ranging over the taxonomy/similarity/IC/Morphy/validate/export items (all of them in the thorough tier, a rotating sixth in the quick tier) and X over the whole battery, X is re-run after Y and must return what it returned in a fresh process (read-only calls do not change later results); and the whole battery is run uninstrumented in separate processes with PYTHONHASHSEED 0..K-1 (K=4 quick, 24 thorough) whose transcripts must be identical to each other. History items also cover reads followed by the arrival of an extension of a lexicon that was read (nothing removed), through both entry points.',
     note='Sets of integers (rowids) are not permuted: their iteration order does not depend on the hash seed. Every permutation of a small set of strings/entities is the iteration order under some seed, so a divergence found by E4 is realisable; the cross-process stage exhibits concrete seeds where it can.',
 )
 
